@@ -86,7 +86,11 @@ type Upstream struct {
 	explicitlyFlushResultCh chan error
 
 	closeTimeout time.Duration
-	sequence     *sequenceNumberGenerator
+	// writesInFlight counts WriteDataPoints calls between their look at the stream state and the hand-over of their
+	// points to the flush loop. Close waits for them after it has marked the stream as draining, so that every write
+	// that returned nil is part of what Close flushes and reports.
+	writesInFlight atomic.Int64
+	sequence       *sequenceNumberGenerator
 
 	afterHooker          ReceiveAckHooker
 	sendDataPointsHooker SendDataPointsHooker
@@ -140,11 +144,32 @@ func (u *Upstream) Close(ctx context.Context, opts ...UpstreamCloseOption) error
 		return errors.New("already draining")
 	}
 	if beforeStatus != streamStatusResuming {
+		// writes that saw the stream open are about to hand their points over: let them, or they would be accepted and
+		// then dropped (or transmitted after the close request). Writes that start from now on are refused.
+		u.waitForWritesInFlight(ctx)
 		if err := u.waitToSendAllDataPointsAndReceiveAllAck(ctx); err != nil {
 			u.logger.Warnf(ctx, "Failed to waitSentAllDataPointsAndReceivedAllAck: %+v", err)
 		}
 	}
 	return u.closeWithError(ctx, nil, opts...)
+}
+
+func (u *Upstream) waitForWritesInFlight(ctx context.Context) {
+	timeout := time.NewTimer(u.closeTimeout)
+	defer timeout.Stop()
+	tick := time.NewTicker(200 * time.Microsecond)
+	defer tick.Stop()
+	for u.writesInFlight.Load() > 0 {
+		select {
+		case <-ctx.Done():
+			return
+		case <-u.ctx.Done():
+			return
+		case <-timeout.C:
+			return
+		case <-tick.C:
+		}
+	}
 }
 
 func (u *Upstream) closeWithError(ctx context.Context, causeError error, opts ...UpstreamCloseOption) error {
@@ -256,6 +281,8 @@ func (u *Upstream) isClosed() bool {
 
 // WriteDataPointsは、データポイントを内部バッファに書き込みます。
 func (u *Upstream) WriteDataPoints(ctx context.Context, dataID *message.DataID, dps ...*message.DataPoint) error {
+	u.writesInFlight.Add(1)
+	defer u.writesInFlight.Add(-1)
 	if u.isClosed() {
 		return errors.ErrStreamClosed
 	}
